@@ -18,6 +18,7 @@ import copy
 import io
 import json
 import logging
+import re
 
 from lxml import etree
 
@@ -781,7 +782,53 @@ AAS3 = NS[1:-1]
 OLD_NS = "http://www.admin-shell.io/aas/2/0"
 
 
-HARMLESS_K = 19      # number of lexical variants of the harmless operator for XML
+HARMLESS_K = 22      # number of lexical variants of the harmless operator for XML
+
+
+def _entity_value(t):
+    """text -> the literal of an internal general entity whose replacement text, *parsed at the point of the
+    reference*, is character data t (XML 1.0 section 4.4: character references in the literal are expanded when the
+    declaration is read, general-entity references are bypassed and expanded at the reference)"""
+    out = []
+    for c in t:
+        if c == "&":
+            out.append("&amp;")
+        elif c == "<":
+            out.append("&lt;")
+        elif c == ">":
+            out.append("&gt;")
+        elif c in "%\"'" or not (32 <= ord(c) < 127):
+            out.append("&#x%X;" % ord(c))
+        else:
+            out.append(c)
+    return "".join(out)
+
+
+def _doctype_name(r):
+    q = etree.QName(r)
+    return (r.prefix + ":" if r.prefix else "") + q.localname
+
+
+def _tree_shape(e):
+    """tag, attributes, character data and children of an element (what the XML information set says about it)"""
+    return (e.tag, sorted(e.attrib.items()), e.text or "", e.tail or "", [_tree_shape(c) for c in e])
+
+
+def _with_entities(r, body, decls, reference_tree=None):
+    """the serialised document `body` behind a document type declaration whose internal subset declares the general
+    entities decls = [(name, literal)].  With reference_tree, the text is first read by an independent plain parser
+    (libxml2 defaults: entities are expanded) and must give the same elements, attributes and character data as
+    reference_tree (a _tree_shape); otherwise None."""
+    subset = "".join('<!ENTITY %s "%s">' % (n, v) for n, v in decls)
+    data = ("<!DOCTYPE %s [%s]>" % (_doctype_name(r), subset) + body).encode()
+    if reference_tree is not None:
+        try:
+            got = _tree_shape(etree.fromstring(data, etree.XMLParser()))
+        except etree.XMLSyntaxError:
+            return None
+        if got[:3] + got[4:] != reference_tree[:3] + reference_tree[4:]:
+            return None
+    return RawText(data)
 
 
 def _text_cuts(t, variant):
@@ -863,12 +910,64 @@ def xml_relex(r, el, parent, variant):
     elif k == 17:                                      # attributes the metamodel does not know
         el.set("{http://www.w3.org/XML/1998/namespace}space", "preserve")
         el.set("note", "x")
-    else:                                              # the text of a leaf spelled with numeric character references
+    elif k == 18:                                      # the text of a leaf spelled with numeric character references
         if len(el) == 0 and el.text:
             t, el.text = el.text, "VERIFMARKVERIF"
             refs = "".join("&#x%X;" % ord(c) for c in t)
             return RawText(etree.tostring(r).decode().replace("VERIFMARKVERIF", refs, 1).encode())
         el.addnext(junk(1))
+    elif k == 19:
+        # (part of) the text of a leaf is the replacement text of an internal general entity declared in the document's
+        # own DOCTYPE (XML 1.0 section 4: a conforming parser includes the replacement text; the content is the same)
+        if len(el) == 0 and el.text and "\r" not in el.text:
+            ref_tree = _tree_shape(r)
+            t, c = el.text, variant // HARMLESS_K
+            cut = _text_cuts(t, variant)
+            if c % 3 == 0 or cut in (0, len(t)):
+                a, e, b = "", t, ""                    # the whole text
+            elif c % 3 == 1:
+                a, e, b = "", t[:cut], t[cut:]         # a prefix ("&base;/sm/1")
+            else:
+                a, e, b = t[:cut], t[cut:], ""         # a suffix
+            el.text = a + "VERIFMARKVERIF" + b
+            body = etree.tostring(r).decode().replace("VERIFMARKVERIF", "&ve;", 1)
+            res = _with_entities(r, body, [("unused", "x"), ("ve", _entity_value(e))], ref_tree)
+            if res is not None:
+                return res
+            el.text = t
+        el.addprevious(junk(0))
+    elif k == 20:
+        # a reference to an entity with white-space-only (or empty) replacement text between elements: before / after
+        # the node, as first child of a container, directly under the root
+        c = variant // HARMLESS_K
+        mark = etree.Comment("VERIFMARKVERIF")
+        where = c % 4 if parent is not None else 2 + c % 2
+        if where == 0 or (where == 2 and len(el) == 0):
+            el.addprevious(mark)
+        elif where == 1:
+            el.addnext(mark)
+        elif where == 2:
+            el.insert(0, mark)
+        else:
+            r.insert((c // 4) % (len(r) + 1), mark)
+        body = etree.tostring(r).decode().replace("<!--VERIFMARKVERIF-->", "&ws;", 1)
+        return _with_entities(r, body, [("ws", ["&#x20;", "&#xA;&#x9;", ""][(c // 4) % 3])])
+    else:
+        # the node itself (an element with its subtree) is the replacement text of an internal general entity (it
+        # declares the namespace prefix itself: libxml2 parses the replacement text without the context of the reference)
+        if parent is not None and "\r" not in "".join(el.itertext()):
+            ref_tree = _tree_shape(r)
+            sub = etree.tostring(el, with_tail=False).decode()
+            mark = etree.Comment("VERIFMARKVERIF")
+            mark.tail = el.tail
+            parent.replace(el, mark)
+            body = etree.tostring(r).decode().replace("<!--VERIFMARKVERIF-->", "&node;", 1)
+            lit = sub.replace("%", "&#x25;").replace('"', "&#x22;")
+            res = _with_entities(r, body, [("node", lit)], ref_tree)
+            if res is not None:
+                return res
+            parent.replace(mark, el)
+        el.addnext(junk(0))
     return r
 
 
